@@ -101,7 +101,12 @@ Definition resolve (d : doc) (sp : list ospan) (a b : nat) : doc * list nat * bo
 Definition insertion_anchor (d : doc) (sp : list ospan) (index : nat) : doc * option nat :=
   let prec := filter (fun s => Nat.eqb (o_end s) index) sp in
   match last_opt prec with
-  | Some s => if o_real s then (d, Some (o_uid s)) else
+  | Some s => if o_real s then
+                (* the span may end in the middle of its run (a run with line breaks has several spans): split there *)
+                let ro := offset_in_run sp s + length (o_text s) in
+                if ro <? length (run_text (run_kids (o_uid s) d)) then let '(d', l, _) := do_split d (o_uid s) ro in (d', Some l)
+                else (d, Some (o_uid s))
+              else
       (* fall through *)
       match filter (fun s => (o_start s <? index) && (index <? o_end s)) sp with
       | c :: _ => if o_real c then let '(d', l, _) := do_split d (o_uid c) (offset_in_run sp c + (index - o_start c)) in (d', Some l)
